@@ -72,7 +72,7 @@ impl Prop for C05 {
         let layered = (proptest::sample::select(&[0u8, 1][..]), 90u8..=255, any::<u32>(), proptest::sample::select(&[0u8, 3][..]))
             .prop_map(|(kind, n, perm, wmode)| GraphCase { kind, n, perm, shape: 9, edges: vec![], wmode, big_n: 0, big_seed: 0 })
             .boxed();
-        prop_oneof![8000 => small, 400 => mid, 200 => large, 20 => boundary, 1 => big, 3 => layered].boxed()
+        prop_oneof![8000 => small, 400 => mid, 200 => large, 20 => boundary, 4 => big, 3 => layered].boxed()
     }
     fn random_cases(&self, tier: Tier) -> u32 {
         tier.pick(150_000, 1_500_000)
@@ -84,7 +84,7 @@ impl Prop for C05 {
         let n = ng.n;
         let mut any_tie = false;
         let mut any_nonzero = false;
-        let modes: Vec<bool> = if ng.weighted { vec![true, false] } else { vec![false] };
+        let modes: Vec<bool> = if n > 260 { vec![ng.weighted] } else if ng.weighted { vec![true, false] } else { vec![false] };
         for weighted in modes {
             let w = if n <= 260 { weight_matrix(&ng, weighted) } else { vec![] };
             let raw = if n <= 8 {
@@ -111,7 +111,7 @@ impl Prop for C05 {
             if raw.iter().any(|x| *x > 0.0) {
                 any_nonzero = true;
             }
-            for normalized in [false, true] {
+            for normalized in if n > 260 { vec![n % 2 == 0] } else { vec![false, true] } {
                 let mut want = raw.clone();
                 rescale_betweenness(&mut want, n, normalized, ng.directed);
                 let ctx = format!("betweenness_centrality[{},norm={}]", if weighted { "weighted" } else { "hops" }, normalized);
